@@ -9142,6 +9142,17 @@ class SVG(Group):
         if transform is not None:
             values[SVG_ATTR_TRANSFORM] = transform
 
+        def structural(cls, element_values):
+            """Builds a container element. A container whose own attributes are in error (an unparsable
+            transform) is not rendered, like a graphic element in error, rather than ending the parse."""
+            try:
+                return cls(element_values)
+            except ValueError:
+                if on_error == "raise":
+                    raise
+                element_values[SVG_ATTR_DISPLAY] = SVG_VALUE_NONE
+                return None
+
         for tag, event, elem in SVG._use_structure_parse(source):
             """
             SVG element parsing parses the job compiling any parsed elements into their compiled object forms.
@@ -9265,7 +9276,9 @@ class SVG(Group):
                 if SVG_NAME_TAG == tag:
                     # The ordering for transformations on the SVG object are:
                     # explicit transform, parent transforms, attribute transforms, viewport transforms
-                    s = SVG(values)
+                    s = structural(SVG, values)
+                    if s is None:
+                        continue
 
                     if width is None:
                         # If a dim was not provided but a viewbox was, use the viewbox dim as physical size, else 1000
@@ -9305,22 +9318,30 @@ class SVG(Group):
                         context.append(s)
                     context = s
                 elif SVG_TAG_GROUP == tag:
-                    s = Group(values)
+                    s = structural(Group, values)
+                    if s is None:
+                        continue
                     if context is not None:
                         context.append(s)
                     context = s
                     s.render(ppi=ppi, width=width, height=height)
                 elif SVG_TAG_DEFS == tag:
-                    s = Group(values)
+                    s = structural(Group, values)
+                    if s is None:
+                        continue
                     context = s  # Non-Rendered
                     s.render(ppi=ppi, width=width, height=height)
                 elif SVG_TAG_CLIPPATH == tag:
-                    s = ClipPath(values)
+                    s = structural(ClipPath, values)
+                    if s is None:
+                        continue
                     context = s  # Non-Rendered
                     s.render(ppi=ppi, width=width, height=height)
                     clip += 1
                 elif SVG_TAG_USE == tag:
-                    s = Use(values)
+                    s = structural(Use, values)
+                    if s is None:
+                        continue
                     if SVG_ATTR_TRANSFORM in s.values:
                         # Update value in case x or y applied.
                         values[SVG_ATTR_TRANSFORM] = s.values[SVG_ATTR_TRANSFORM]
@@ -9339,7 +9360,9 @@ class SVG(Group):
                     if SVG_ATTR_ID in attributes and root is not None and use == 1:
                         root.objects[attributes[SVG_ATTR_ID]] = s
                 elif SVG_TAG_PATTERN == tag:
-                    s = Pattern(values)
+                    s = structural(Pattern, values)
+                    if s is None:
+                        continue
                     context = s  # Non-rendered
                     s.render(ppi=ppi, width=width, height=height)
                 elif tag in (
